@@ -281,6 +281,7 @@ func main() {
 		}).Dial,
 		TLSHandshakeTimeout:   10 * time.Second,
 		ExpectContinueTimeout: time.Second,
+		DisableCompression:    true,
 		TLSClientConfig: &tls.Config{
 			InsecureSkipVerify: *skipTLSVerify,
 		},
